@@ -442,3 +442,43 @@ func (a *Agent) countEvents(thid string) int {
 
 	return a.countEventsLocked(thid)
 }
+
+// coqPaths prints, per connection, the announced post-states ordered by protocol rank (the order in which the
+// events of one step reach a listener is not fixed), abandoned last.
+func (a *Agent) coqPaths() []string {
+	a.mu.Lock()
+	defer a.mu.Unlock()
+
+	rank := map[string]int{"invited": 1, "requested": 2, "responded": 3, "completed": 4, "abandoned": 5}
+	by := map[string][]string{}
+
+	var order []string
+
+	for _, e := range a.states {
+		if !e.Post || e.ConnID == "" {
+			continue
+		}
+
+		if _, ok := by[e.ConnID]; !ok {
+			order = append(order, e.ConnID)
+		}
+
+		by[e.ConnID] = append(by[e.ConnID], e.State)
+	}
+
+	var out []string
+
+	for _, c := range order {
+		l := by[c]
+		sort.SliceStable(l, func(i, j int) bool { return rank[l[i]] < rank[l[j]] })
+
+		terms := make([]string, len(l))
+		for i, s := range l {
+			terms[i] = stOf(s)
+		}
+
+		out = append(out, "["+strings.Join(terms, "; ")+"]")
+	}
+
+	return out
+}
